@@ -71,7 +71,8 @@ class Initializer:
         positions = []
 
         for value_ in value_list:
-            pos = self.conv.value2position(list(value_.values()))
+            # read the dictionary by parameter name, not by the order of its keys
+            pos = self.conv.value2position(self.conv.para2value(value_))
             positions.append(pos)
 
         positions_constr = []
